@@ -51,21 +51,100 @@ example : (match resolveAllFix g₃ 5 (St.init (fun _ => 1)) [3, 2, 1] with | .e
   decide
 
 
-/-! ## use-after-free in `read_pax_header` (1.2.0)
+/-! ## use-after-free in `read_pax_header` (1.2.0; repaired in /repo by 56b164f)
 
 One PAX extended header with the records `GNU.sparse.numbytes=1`, `GNU.sparse.map=0,1`,
 `GNU.sparse.numbytes=2`: the first creates the list and `sparse_last`, the second frees the list
 (`pax_sparse_map` → `free_sparse_list(out->sparse)`) but leaves `sparse_last`, the third stores
-through it.  In the model of the shipped code that store is `.oob`; the repaired code
-(fixes/C07-pax-sparse-uaf.patch) accepts the header and keeps the last entry only.
+through it.  The model of the *current* code (`Sqfs.ParseTotal.paxApply`) resets `sparse_last`;
+the 1.2.0 behaviour is modelled here only: `stale` = "`sparse_last` points into a freed list", and the
+store through it is `.oob`.  The check compares the real code with the current model only, so a revert
+of 56b164f is reported (ASan abort of the harness + disagreement), not followed.
 -/
-open Sqfs.ParseTotal in
+section PaxOld
+open Sqfs.ParseTotal
+
+def keyMap : Bytes := [71, 78, 85, 46, 115, 112, 97, 114, 115, 101, 46, 109, 97, 112]                      -- "GNU.sparse.map"
+def keyNumbytes : Bytes := [71, 78, 85, 46, 115, 112, 97, 114, 115, 101, 46, 110, 117, 109, 98, 121, 116, 101, 115]  -- "GNU.sparse.numbytes"
+
+/-- `apply`-step of the 1.2.0 loop: as today, except that `GNU.sparse.map` leaves `sparse_last` alone -/
+def paxApplyOld (buf : Bytes) (r : PaxRec) (o : PaxOut) (stale : Bool) : R (PaxOut × Bool) :=
+  match cstr buf (buf.length + 1) r.key with
+  | .oob => .oob | .spin => .spin | .fail c => .fail c
+  | .ok key =>
+    if key = keyNumbytes ∧ stale then
+      -- `sparse_last->next = sparse;` with `sparse_last` freed — but only after the value parsed
+      match parseU 10 buf r.value none true 0 0 with
+      | .ok _ => .oob
+      | .fail _ => .fail 1 | .oob => .oob | .spin => .spin
+    else match paxApply buf r o with
+      | .ok o' =>
+        if key = keyMap then .ok ({ o' with sparseOpen := o.sparseOpen }, stale || o.sparseOpen)
+        else .ok (o', stale)
+      | .fail c => .fail c | .oob => .oob | .spin => .spin
+
+def paxLoopOld (endIdx : Nat) : Nat → Bytes → Nat → PaxOut → Bool → R PaxOut
+  | 0, _, _, _, _ => .spin
+  | fuel + 1, buf, line, o, stale =>
+    if line ≥ endIdx then .ok o
+    else match paxFrame buf endIdx line with
+      | .oob => .oob | .spin => .spin | .fail c => .fail c
+      | .frame buf' r next =>
+        match paxApplyOld buf' r o stale with
+        | .ok (o', st') => paxLoopOld endIdx fuel buf' next o' st'
+        | .fail c => .fail c | .oob => .oob | .spin => .spin
+
+def readPaxHeaderOld (record : Bytes) : R PaxOut :=
+  paxLoopOld record.length (record.length + 1) (record ++ [0]) 0 {} false
+
 def uafRecord : List UInt8 := [50, 53, 32, 71, 78, 85, 46, 115, 112, 97, 114, 115, 101, 46, 110, 117, 109, 98, 121, 116, 101, 115, 61, 49, 10, 50, 50, 32, 71, 78, 85, 46, 115, 112, 97, 114, 115, 101, 46, 109, 97, 112, 61, 48, 44, 49, 10, 50, 53, 32, 71, 78, 85, 46, 115, 112, 97, 114, 115, 101, 46, 110, 117, 109, 98, 121, 116, 101, 115, 61, 50, 10]
 
-open Sqfs.ParseTotal in
-theorem pax_use_after_free : (readPaxHeader false uafRecord).isOob = true := by decide
+theorem pax_use_after_free : (readPaxHeaderOld uafRecord).isOob = true := by decide
 
-open Sqfs.ParseTotal in
-example : (readPaxHeader true uafRecord).isOk = true := by decide
+/-- the current code accepts the header and keeps the last entry only -/
+example : (match readPaxHeader uafRecord with | .ok o => decide (o.sparse = [{ offset := 0, count := 2 }]) | _ => false) = true := by decide
+
+end PaxOld
+
+/-! ## `read_binary` of 1.2.0 lets a base-256 number wrap (C04's finding; repaired in /repo by 9ba238f)
+
+The old guard was `ov != 0 && ov != 0xFF` for either sign and had no final sign test.  The nine digits
+`ff 00 ff 80 00 7f 64 e0 ff` start negative, but the top byte stops being `0xFF` after the second digit:
+1.2.0 carries on and returns the wrapped value, the current code refuses.  As for the PAX variant the
+check does not probe which guard the tree has.
+-/
+section BinOld
+open Sqfs.ParseTotal
+
+def binLoopOld (buf : Bytes) : Nat → Nat → Nat → R Nat
+  | _, 0, r => .ok r
+  | i, d + 1, r =>
+    match buf[i]? with
+    | none => .oob
+    | some x =>
+      let ov := r / 72057594037927936 % 256
+      if ov ≠ 0 ∧ ov ≠ 255 then .fail 1
+      else binLoopOld buf (i + 1) d ((r * 256 + x.toNat) % U64)
+
+def readBinaryOld (buf : Bytes) (i digits : Nat) : R Nat :=
+  match digits with
+  | 0 => .ok 0
+  | d + 1 =>
+    match buf[i]? with
+    | none => .oob
+    | some x0 =>
+      if x0.toNat = 255 then binLoopOld buf (i + 1) d (U64 - 1)
+      else
+        let x := x0.toNat % 128
+        if d > 7 ∧ x ≠ 0 then .fail 1 else binLoopOld buf (i + 1) d x
+
+def wrapField : List UInt8 := [0xff, 0x00, 0xff, 0x80, 0x00, 0x7f, 0x64, 0xe0, 0xff]
+
+/-- 1.2.0 accepts the field with a *positive* value (the sign byte said negative): not the number the digits denote … -/
+theorem read_binary_old_wraps : readBinaryOld wrapField 0 9 = .ok 0x00ff80007f64e0ff := by decide
+/-- … the current code refuses it -/
+example : readBinary wrapField 0 9 = .fail 1 := by decide
+
+end BinOld
 
 end Sqfs.C07.Witness
